@@ -243,14 +243,22 @@ Targets  == [hs : Slots, id : Auths]
 UidLists == {<<u>> : u \in Uids} \cup {<<x[1], x[2]>> : x \in {y \in Uids \X Uids : y[1] # y[2]}}
 Items1   == {<<[c |-> c, seq |-> q, seen |-> sn]>> : c \in Conns, q \in Seqs, sn \in Seens}
 
+\* A rejected call changes nothing whatever its other arguments are, so the exhaustive
+\* run tries a stale target with one representative argument tuple only.
+MinOf(S)  == CHOOSE x \in S : \A y \in S : x <= y
+Acc(t)    == Accepts(slot[t.hs], t.id)
+Rep(c, q) == c = 1 /\ q = MinOf(Seqs)
+
 Next ==
   \/ \E hs \in Slots, id \in Auths : BecomeAuthority(hs, id)
   \/ \E hs \in Slots : LoseAuthority(hs)
-  \/ \E t \in Targets, c \in Conns, q \in Seqs, sn \in Seens : Register(t, c, q, sn)
-  \/ \E t \in Targets, k \in 0..MaxTok : Commit(t, k)
-  \/ \E t \in Targets, k \in 0..MaxTok : Abort(t, k)
-  \/ \E t \in Targets, c \in Conns, q \in Seqs : Unregister(t, c, q)
-  \/ \E t \in Targets, its \in Items1 : Touch(t, its)
+  \/ \E t \in Targets, c \in Conns, q \in Seqs, sn \in Seens :
+        (Acc(t) \/ (Rep(c, q) /\ sn = MinOf(Seens))) /\ Register(t, c, q, sn)
+  \/ \E t \in Targets, k \in 0..MaxTok : (Acc(t) \/ k = 0) /\ Commit(t, k)
+  \/ \E t \in Targets, k \in 0..MaxTok : (Acc(t) \/ k = 0) /\ Abort(t, k)
+  \/ \E t \in Targets, c \in Conns, q \in Seqs : (Acc(t) \/ Rep(c, q)) /\ Unregister(t, c, q)
+  \/ \E t \in Targets, its \in Items1 :
+        (Acc(t) \/ (Rep(its[1].c, its[1].seq) /\ its[1].seen = MinOf(Seens))) /\ Touch(t, its)
   \/ \E now \in Nows, ttl \in TTLs : Expire(now, ttl)
   \/ \E t \in Targets, us \in UidLists : Lookup(t, us, "uids")
   \/ \E t1 \in Targets, t2 \in Targets, us \in UidLists : LookupGroups(t1, us, t2, us)
